@@ -11,6 +11,7 @@ from common import cq_bool, cq_list, cq_nat, cq_opt, cq_Q
 import props.c03 as c03
 
 ID = "C08"
+THOROUGH_ROUNDS = 2      # rounds of generate() in the thorough tier (new random draws each round)
 COQ_MODULE = "Corr.C08"
 SHARD = 60
 RULE = ("exact stream: probe survival function 2^-floor(age/mean) and FixedLifetime x inflow_at in {start, middle, end} and "
